@@ -96,11 +96,18 @@ class Lib:
       del cls, args, kwargs
       return 'fn1'
 
-    self.classes = {'A': A, 'B': B, 'C': C, 'D': D}
+    class N:
+      """A class that defines its own __new__ (detour saves and replaces it)."""
+
+      def __new__(cls, *args, **kwargs):
+        del args, kwargs
+        return super().__new__(cls)
+
+    self.classes = {'A': A, 'B': B, 'C': C, 'D': D, 'N': N}
     self.dests = dict(self.classes)
     self.dests['fn1'] = fn1
     self.wrappers = {}
-    for n in ('A', 'B'):
+    for n in ('A', 'B', 'N'):
       w = pg.wrap(self.classes[n])
       w.__name__ = 'W' + n
       self.wrappers['W' + n] = w
@@ -352,7 +359,7 @@ class Lib:
     if name == 'allow_writable_accessors':
       with pg.as_sealed(False):
         return self._behaviour(name)
-    if name in ('allow_partial', 'dynamic_evaluate'):
+    if name in ('allow_partial', 'dynamic_evaluate', 'detour', 'apply_wrappers'):
       # (pg.oneof() under enable_type_check(False) raises AttributeError: defaults are not filled in)
       with pg.as_sealed(False), pg.allow_writable_accessors(True), pg.enable_type_check(True):
         return self._behaviour(name)
@@ -405,6 +412,17 @@ class Lib:
     if name == 'dynamic_evaluate':
       v = pg.oneof([1, 2])
       return {'oneof': v if isinstance(v, str) else 'hyper'}
+    if name in ('detour', 'apply_wrappers'):
+      # what object creation really does for each probe class (the `__new__` patch is process-wide,
+      # the mapping thread-local)
+      out = {}
+      for n in sorted(self.classes):
+        try:
+          o = self.classes[n]()
+          out[n] = o if isinstance(o, str) else type(o).__name__
+        except Exception as e:    # pylint: disable=broad-except
+          out[n] = 'raised:' + type(e).__name__
+      return {'new': out}
     return None
 
   def fresh_thread_objects(self):
@@ -735,10 +753,10 @@ def gen_arg(rng, name):
     return {'kw': {x: rng.choice(ATOMS[1:]) for x in keys}, 'name': rng.choice(['global', 'p1']),
             'inh': rng.choice([False, True, 'global', 'p1', False, True])}
   if name == 'detour':
-    srcs = rng.sample(['A', 'B', 'C', 'D'], rng.randint(0, 3))
-    return {'kw': {s: rng.choice(['A', 'B', 'C', 'D', 'fn1']) for s in srcs}}
+    srcs = rng.sample(['A', 'N', 'B', 'C', 'D', 'N', 'A'], rng.randint(0, 3))
+    return {'kw': {s: rng.choice(['A', 'B', 'C', 'D', 'N', 'fn1']) for s in srcs}}
   if name == 'apply_wrappers':
-    ws = rng.sample(['WA', 'WB'], rng.randint(1, 2))
+    ws = rng.sample(['WA', 'WB', 'WN'], rng.randint(1, 2))
     return {'kw': {w[1:]: w for w in ws}}
   if name == 'load_types_for_deserialization':
     ts = rng.sample(['T1', 'T2', 'T3'], rng.randint(0, 2))
@@ -855,7 +873,9 @@ class C17(Prop):
           'registry (act = a public action on the manager object of the enclosing block: TimeIt.end()/status(), '
           'pg.with_contextual_override wrapper called from a new thread; pg.view() inner renders are a manager; '
           'TimeIt and ContextualOverride objects are re-used; kwargs carry mutable nested dict / list values); '
-          'formerly: '
+          'detour/apply_wrappers probes create objects of 5 classes incl. one with its own __new__; extra '
+          'two-thread streams where both threads scope the SAME class and one enters and leaves (normally or '
+          'by exception) while the other is inside; formerly: '
           'registry, scope depth <= 6, arguments from each manager\'s domain (None where accepted), exceptions '
           'raised at arbitrary leaves and caught at arbitrary levels; three streams: mixed managers, '
           'focused (2-3 managers nested in every order), two-thread programs with baton hand-offs at '
@@ -866,6 +886,8 @@ class C17(Prop):
       'threading.local isolation and contextlib.contextmanager semantics (finally runs on exceptional exit) '
       'are CPython behaviour, exercised but not modelled',
       'harness adapters (harness/c17.py Lib): which public getter / behavioural probe observes each manager',
+      'the process-wide `__new__` patch of detour is modelled as World.patched (grows only); which '
+      '`__new__` CPython resolves for subclasses / super().__new__ chains (get_original_new) is not modelled',
       'modelled, not verified: the primitives of PgModel/Scope.lean (tied by T-SCOPE shape matching of every '
       'primitive and by correspondence); class detouring\'s effect on __new__ resolution, TimeIt child '
       'bookkeeping and DynamicEvaluationContext.collect/apply (compositions) are outside the model',
@@ -894,6 +916,34 @@ class C17(Prop):
       b = g.prog(rng.randint(2, 5), focus if rng.chance(0.7) else None, [rng.randint(8, 24)])
       # make sure there are hand-offs inside scopes
       yield {'threads': [['seq', a, ['sync']], ['seq', ['sync'], b]]}
+    # two threads scoping the SAME classes with detour / apply_wrappers, one entering and leaving
+    # while the other is inside (the thread-local mapping rides on a process-wide `__new__` patch)
+    for _ in range(n_two // 2):
+      ms = ['detour', 'apply_wrappers', 'detour', 'as_sealed']
+      g = ProgGen(rng, ms, False, True)
+      a = g.prog(rng.randint(2, 4), ['detour', 'apply_wrappers'], [rng.randint(8, 20)])
+      g = ProgGen(rng, ms, False, True)
+      b = g.prog(rng.randint(2, 4), ['detour', 'apply_wrappers'], [rng.randint(8, 20)])
+      yield {'threads': [['seq', a, ['sync']], ['seq', ['sync'], ['seq', b, ['sync']]]]}
+    # ... and the plain pattern: A inside a scope on class X, B enters and leaves (normally or by an
+    # exception) its own outermost scope on the same X, A creates X again
+    for _ in range(n_two // 4):
+      x = rng.choice(['A', 'N', 'N', 'B'])
+
+      def scope_on(x):
+        if rng.chance(0.4):
+          return 'apply_wrappers', {'kw': {x: 'W' + x}}
+        kw = {x: rng.choice([d for d in ['A', 'B', 'C', 'D', 'N', 'fn1'] if d != x])}
+        if rng.chance(0.4):
+          y = rng.choice([c for c in ['A', 'B', 'C', 'D', 'N'] if c != x])
+          kw[y] = rng.choice(['A', 'B', 'C', 'D', 'N'])
+        return 'detour', {'kw': kw}
+      m1, a1 = scope_on(x)
+      m2, a2 = scope_on(x)
+      inner_b = ['seq', ['probe', m2], ['raise'] if rng.chance(0.35) else (['sync'] if rng.chance(0.3) else ['skip'])]
+      a = ['scope', m1, a1, ['seq', ['probe', m1], ['seq', ['sync'], ['seq', ['probe', m1], ['seq', ['sync'], ['probe', m1]]]]]]
+      b = ['seq', ['try', ['scope', m2, a2, inner_b]], ['seq', ['probe', m2], ['sync']]]
+      yield {'threads': [a, ['seq', ['sync'], b]]}
     if tier == 'thorough':
       yield from self.exhaustive_pairs(rng)
 
@@ -1026,6 +1076,18 @@ class C17(Prop):
             return {'signature': 'not-effective:%s' % m,
                     'what': 'thread %d: inside `with %s(%s)` the getter gives %s; documented nesting rule over the '
                             'outer value %s gives %s' % (tid, m, json.dumps(b['arg']), b['inside'], b['before'][m], exp[1])}
+    # detour / apply_wrappers: object creation follows the mapping the same thread observes, whatever
+    # other threads enter or leave meanwhile (the `__new__` patch is shared by all threads)
+    for tid, t in enumerate(out['model']['threads']):
+      for o in t['obs']:
+        if o[0] in ('detour', 'apply_wrappers') and isinstance(o[2], dict) and 'new' in o[2]:
+          mapping = o[1]['f']
+          for c, got in sorted(o[2]['new'].items()):
+            want = mapping.get(c, c)
+            if got != want:
+              return {'signature': 'detour-not-effective:' + o[0],
+                      'what': 'thread %d: current_mappings() = %s but %s() creates %s (expected %s)'
+                              % (tid, mapping, c, got, want)}
     # timing scopes: a scope entered inside another one is registered under it ('outer.inner' in
     # the public status() of the outer scope) — the nesting rule of pg.timeit
     for tid, blocks in enumerate(out['blocks']):
